@@ -34,7 +34,8 @@ void GhostSMTSolver::newDecisionLevel()
 void GhostSMTSolver::cancelUntil(int level) {
     int prev_dl = decisionLevel();
     SimpSMTSolver::cancelUntil(level);
-    if (prev_dl > level) {
+    // levels opened by pushing to trail_lim directly (SimpSMTSolver::implied / asymm) have no ghost trail entry
+    if (prev_dl > level and level < ghostTrailLim.size()) {
         for (int c = ghostTrail.size() - 1; c >= ghostTrailLim[level]; c--) {
             insertVarOrder(ghostTrail[c]);
         }
